@@ -31,19 +31,23 @@ MANIFEST = dict(
               "operation histories are replayed on the real engine and every (org, index expression, query form) answer is "
               "compared with the abstract layer after every operation",
     text=("spec/Tenancy.tla: events[org][index], aliases[org], tables[org]; Ingest / Flush / Rotate / AddAlias / RemoveAlias / "
-          "DeleteIndex; Expand(org, expr) for a, ab, b, al (alias), a*, *, 'a,b' over names that are prefixes of each other and an "
-          "alias shared across indexes and organisations; transcription of virtualtablenames file vs memory map, "
+          "DeleteIndex; Expand(org, expr) for a, ab, abc, b, al (alias), a* (trailing), a*b (inner), *b (leading wildcard), *, 'b,a*b' over "
+          "names that extend each other (a, ab, abc) and an alias shared across indexes and organisations; DeleteIndex over direct "
+          "names and the wildcards a*b / *b; transcription of virtualtablenames file vs memory map, "
           "aliasToIndexNames, open/unrotated/rotated segments keyed by table name with OrgId filters, deleteIndex by name. TLC: "
-          "NoLeak, ExactByName, Exact (patched transcription), NoDeleteExact (this tree's transcription), 2 orgs x 3 indexes, <= 4 "
-          "operations (thorough: 2 orgs <= 5, 3 orgs <= 4). Replay: canonical histories of exactly 4 operations over 2 orgs x {a, ab} "
-          "(4724, exhaustive export) and simulated histories of 6 operations over 3 orgs x {a, ab, b}; a seeded stratified sample is "
-          "executed on the real engine (ES bulk with org id, alias and delete-index handlers with a synthetic RequestCtx, flush, "
-          "forced rotation) and after every operation every (org, expression) is searched; `stats count by`, listColumnNames, "
-          "listIndices and a PromQL selector per organisation are checked after deletes and at the end."),
-    note=("Replay is a sample (quick 240 histories, thorough 2000), not all histories. Completeness (an answer missing events) "
+          "NoLeak, ExactByName, Exact (patched transcription), NoDeleteExact (this tree's transcription), 2 orgs x 4 indexes, <= 4 "
+          "operations (thorough: 2 orgs <= 5, 3 orgs <= 4). Replay: three generated pools - all canonical histories of exactly 4 "
+          "operations over 2 orgs x {a, ab, abc} (13 410), simulated histories of 6 operations over 3 orgs x {a, ab, abc, b}, and all "
+          "canonical histories of 5 operations in which ingest+rotate is one step (segment-rich: up to 4 rotated segments of one "
+          "(org, index) before it is deleted; 20 774) - from which a seeded stratified sample (deviating / most-at-stake deletes / "
+          "feature classes) is executed on the real engine (ES bulk with org id, alias and delete-index handlers with a synthetic "
+          "RequestCtx, flush, forced rotation); after every operation every (org, expression) is searched and its columns listed (one "
+          "column per event, so a re-created index must not inherit columns); `stats count by`, `stats count`, listIndices and a "
+          "PromQL selector per organisation are checked after deletes, rotations and at the end."),
+    note=("Replay is a sample (quick 180 histories, thorough 2000), not all histories. Completeness (an answer missing events) "
           "is judged only where the statement speaks: data lost through a DeleteIndex; other under-delivery that the transcription "
           "predicts is recorded as an observation, unpredicted under-delivery is SPEC-DRIFT (exit 2). Delete is exercised with "
-          "direct names only (no wildcard/alias deletes); ingest never targets an alias name; restart, retention, PQS and the "
+          "direct names and wildcards that match no alias (no alias deletes); ingest never targets an alias name; restart, retention, PQS and the "
           "Elasticsearch _search API are not exercised; metrics isolation is one selector query per organisation on a fixed "
           "prologue (one series per organisation with identical name), not part of the TLC histories. The per-organisation alias "
           "directories are created by the harness (the open-source tree only creates organisation 0's)."),
@@ -52,13 +56,26 @@ MANIFEST = dict(
 
 WORKERS = int(os.environ.get("VERIF_WORKERS", "0")) or min(vlib.NCPU, 8)
 T0 = 1_700_000_000_000
-EXPRS = ["a", "ab", "b", "al", "a*", "*", "a,b"]
+NAMES = ("a", "ab", "abc", "b")
+
+
+def is_del(opd, org=None, idx=None):
+    """is opd a successful DeleteIndex (of organisation org) (that names index idx)"""
+    return opd["op"] == "delete" and bool(opd["present"]) and (org is None or opd["org"] == org) and (idx is None or idx in opd["names"])
+
+
+def is_ingest(opd):
+    return opd["op"] in ("ingest", "ingest_rotate")
+
+
+def is_rotate(opd):
+    return opd["op"] in ("rotate", "ingest_rotate")
 ORGS3 = [0, 1, 2]
 MT0 = 1_700_000_000
 
 
 def doc(o, i, n):
-    return {"timestamp": T0 + n, "org": "o%d" % o, "idx": i, "eid": "e%d" % n, "c_o%d_%s" % (o, i): n, "msg": "event %d of org %d" % (n, o)}
+    return {"timestamp": T0 + n, "org": "o%d" % o, "idx": i, "eid": "e%d" % n, "c_o%d_%s_e%d" % (o, i, n): n, "msg": "event %d of org %d" % (n, o)}
 
 
 def rec_triple(r):
@@ -103,6 +120,9 @@ class Replayer:
             if r.get("herr") or (r.get("response") or {}).get("errors"):
                 raise vlib.Infra("C13 ingest rejected: %s" % r)
             return r
+        if k == "ingest_rotate":
+            self.apply(dict(op, op="ingest"))
+            return self.dr.ok("rotate")
         if k == "flush":
             return self.dr.ok("flush")
         if k == "rotate":
@@ -164,9 +184,9 @@ class Replayer:
         r = self.dr.ok("ten_columns", org=o, index=e, start=T0 - 1000, end=T0 + 10_000_000)
         out = set()
         for c in r.get("body") or []:
-            m = re.match(r"^c_o(\d+)_(\w+)$", str(c))
+            m = re.match(r"^c_o(\d+)_([a-z]+)_e(\d+)$", str(c))
             if m:
-                out.add((int(m.group(1)), m.group(2)))
+                out.add((int(m.group(1)), m.group(2), int(m.group(3))))
         return out
 
     def indices(self, o):
@@ -181,7 +201,7 @@ class Replayer:
 
 
 def kind_of(e):
-    return {"*": "all", "a*": "wildcard", "al": "alias", "a,b": "list"}.get(e, "name")
+    return {"*": "all", "a*": "wildcard", "a*b": "inner-wildcard", "*b": "leading-wildcard", "al": "alias", "b,a*b": "list"}.get(e, "name")
 
 
 def replay_history(binary, h):
@@ -199,7 +219,7 @@ def replay_history(binary, h):
         for k, st in enumerate(steps):
             op = st["op"]
             res = rp.apply(op)
-            if op["op"] == "ingest":
+            if is_ingest(op):
                 ingested_at[op["id"]] = k
                 own[op["id"]] = (op["org"], op["idx"])
             if op["op"] == "delete":
@@ -210,11 +230,11 @@ def replay_history(binary, h):
                     out["obs"].append("step %d: delete(%s,%s) answered %s but the index %s" % (
                         k + 1, op["org"], op["idx"], res.get("status"), "exists" if op["present"] else "does not exist"))
             last = k == len(steps) - 1
-            full = last or op["op"] in ("delete", "rotate")
+            full = last or op["op"] == "delete" or is_rotate(op)
             cur = {}
             for o in orgs:
                 evo, viso, exo = st["ev"][str(o)], st["vis"][str(o)], st["expand"][str(o)]
-                for e in EXPRS:
+                for e in sorted(exo):
                     allowed = set((o, i, n) for i in exo[e] for n in evo.get(i, []))
                     expected = set((o, i, n) for i in exo[e] for n in viso.get(i, []))
                     forms = [("search", rp.search(o, e)[0])]
@@ -230,8 +250,8 @@ def replay_history(binary, h):
                             if t[0] != o:
                                 key, why = "C13:leak:%s:cross-org" % form, "event of organisation %d" % t[0]
                             elif t[2] in own and t[2] not in evo.get(t[1], []):
-                                gen = "second-generation" if any(s["op"]["op"] == "delete" and s["op"]["org"] == o and s["op"]["idx"] == t[1]
-                                                                 and j < ingested_at.get(t[2], -1) for j, s in enumerate(steps[:k + 1])) else "first-generation"
+                                gen = "second-generation" if any(is_del(s["op"], o, t[1]) and j < ingested_at.get(t[2], -1)
+                                                                 for j, s in enumerate(steps[:k + 1])) else "first-generation"
                                 key, why = "C13:delete-index:data-survives:%s" % gen, "event e%d of the deleted index %s" % (t[2], t[1])
                             else:
                                 key, why = "C13:leak:%s:index-not-named:%s" % (form, kind_of(e)), "event of index %s which %r does not name" % (t[1], e)
@@ -243,18 +263,17 @@ def replay_history(binary, h):
                             impl = set(st["impl"][str(o)][e])
                             for t in sorted(missing):
                                 ing = ingested_at.get(t[2], 10 ** 9)
-                                cross = [j for j in range(k + 1) if steps[j]["op"]["op"] == "delete" and j > ing and steps[j]["op"]["present"] and
-                                         steps[j]["op"]["idx"] == t[1] and steps[j]["op"]["org"] != t[0]]
+                                cross = [j for j in range(k + 1) if j > ing and is_del(steps[j]["op"], None, t[1]) and steps[j]["op"]["org"] != t[0]]
                                 was_seen = t in (prev.get((o, e)) or set())
                                 culprit = None
                                 if cross:
                                     culprit = cross[-1]
-                                elif op["op"] == "delete" and (op["org"], op["idx"]) != (t[0], t[1]) and was_seen:
+                                elif op["op"] == "delete" and not is_del(op, t[0], t[1]) and was_seen:
                                     culprit = k        # it was returned before this delete and is expected after it
                                 if culprit is not None:
                                     j, dj = culprit, steps[culprit]["op"]
-                                    rot = any(s["op"]["op"] == "rotate" for s in steps[ing:j])
-                                    fl = any(s["op"]["op"] in ("flush", "rotate") for s in steps[ing:j])
+                                    rot = any(is_rotate(s["op"]) for s in steps[ing:j])
+                                    fl = any(s["op"]["op"] == "flush" or is_rotate(s["op"]) for s in steps[ing:j])
                                     layer = "rotated" if rot else ("unrotated" if fl else "open")
                                     rel = "cross-org" if dj["org"] != t[0] else "other-index"
                                     out["viol"].append(("C13:delete-index:%s:%s" % (rel, layer),
@@ -270,29 +289,30 @@ def replay_history(binary, h):
                             ids = set(t[2] for t in got)
                             if ids != impl:
                                 out["trace"].append("step %d org %d %r: real %s transcription %s" % (k + 1, o, e, sorted(ids), sorted(impl)))
+                    # column listing after EVERY operation: only columns of live events of the named indexes
+                    cols = rp.columns(o, e)
+                    okcols = set((o, i, n) for i in exo[e] for n in evo.get(i, []))
+                    for c in sorted(cols - okcols):
+                        if c[0] != o:
+                            key = "C13:leak:columns:cross-org"
+                        elif c[2] in own and c[2] not in evo.get(c[1], []):
+                            key = "C13:delete-index:data-survives:columns"
+                        else:
+                            key = "C13:leak:columns:index-not-named:%s" % kind_of(e)
+                        out["viol"].append((key, "step %d (%s): listColumnNames over %r for org %d lists column c_o%d_%s_e%d (%s; live indexes named: %s)" % (
+                            k + 1, json.dumps(op), e, o, c[0], c[1], c[2],
+                            "a column of the deleted index's event e%d" % c[2] if key.endswith("survives:columns") else "not a column of the indexes the expression names",
+                            sorted(i for i in exo[e] if evo.get(i)))))
                     if full:
-                        cols = rp.columns(o, e)
-                        okcols = set((o, i) for i in exo[e] if evo.get(i))
-                        for c in sorted(cols - okcols):
-                            if c[0] != o:
-                                key = "C13:leak:columns:cross-org"
-                            elif any(s_["op"]["op"] == "delete" and s_["op"]["org"] == o and s_["op"]["idx"] == c[1] for s_ in steps[:k + 1]) \
-                                    and not evo.get(c[1]):
-                                key = "C13:delete-index:data-survives:columns"
-                            else:
-                                key = "C13:leak:columns:index-not-named:%s" % kind_of(e)
-                            out["viol"].append((key, "step %d: listColumnNames over %r for org %d lists column c_o%d_%s (live indexes named: %s)" % (
-                                k + 1, e, o, c[0], c[1], sorted(i for i in exo[e] if evo.get(i)))))
                         tot = rp.total(o, e)
                         if tot is not None and tot > len(allowed):
-                            gone = [i for i in exo[e] if not evo.get(i) and any(
-                                s_["op"]["op"] == "delete" and s_["op"]["org"] == o and s_["op"]["idx"] == i for s_ in steps[:k + 1])]
+                            gone = [i for i in exo[e] if not evo.get(i) and any(is_del(s_["op"], o, i) for s_ in steps[:k + 1])]
                             out["viol"].append(("C13:delete-index:data-survives:stats-count" if gone else "C13:leak:stats-count", "step %d: `* | stats count` over %r for org %d counts %d events, only %d exist in the "
                                                 "indexes it names" % (k + 1, e, o, tot, len(allowed))))
                 if full:
                     idx = rp.indices(o)
-                    stray = sorted(i for i in idx if i in ("a", "ab", "b") and not any(
-                        s["op"]["op"] == "ingest" and s["op"]["org"] == o and s["op"]["idx"] == i for s in steps[:k + 1]))
+                    stray = sorted(i for i in idx if i in NAMES and not any(
+                        is_ingest(s["op"]) and s["op"]["org"] == o and s["op"]["idx"] == i for s in steps[:k + 1]))
                     if stray:
                         out["viol"].append(("C13:leak:indices:cross-org", "step %d: listIndices for org %d lists %s which it never created" % (k + 1, o, stray)))
                     ms = rp.metrics(o)
@@ -307,18 +327,17 @@ def replay_history(binary, h):
         # If one is missing, a second server life on the same directory decides: the events were searchable before the
         # restart and must still be.  (Restart is only used when segmeta.json already shows the loss, so losses that a
         # restart causes for other reasons - C07's subject - cannot be blamed on the delete.)
-        if any(s_["op"]["op"] == "delete" and s_["op"]["present"] for s_ in steps):
+        if any(is_del(s_["op"]) for s_ in steps):
             survivors = {}       # (org, idx) -> ids that were rotated and whose index was not deleted afterwards
             done = set()
             for r, s_ in enumerate(steps):
-                if s_["op"]["op"] != "rotate":
+                if not is_rotate(s_["op"]):
                     continue
                 for o, by in s_["ev"].items():
                     for i, ids in by.items():
                         new = set(ids) - done
                         done |= set(ids)
-                        if new and not any(d["op"]["op"] == "delete" and d["op"]["present"] and (d["op"]["org"], d["op"]["idx"]) == (int(o), i)
-                                           for d in steps[r + 1:]):
+                        if new and not any(is_del(d["op"], int(o), i) for d in steps[r + 1:]):
                             survivors.setdefault((int(o), i), set()).update(new)
             listed = set()
             for p in glob.glob(os.path.join(rp.d, "ingestnodes", "*", "segmeta.json")):
@@ -344,8 +363,8 @@ def replay_history(binary, h):
                             break
                         time.sleep(0.3)
                     if want - got:
-                        dels = [d["op"] for d in steps if d["op"]["op"] == "delete" and d["op"]["present"] and (d["op"]["org"], d["op"]["idx"]) != (o, i)]
-                        rel = "cross-org" if any(d["idx"] == i and d["org"] != o for d in dels) else "other-index"
+                        dels = [d["op"] for d in steps if is_del(d["op"]) and not is_del(d["op"], o, i)]
+                        rel = "cross-org" if any(i in d["names"] and d["org"] != o for d in dels) else "other-index"
                         out["viol"].append(("C13:delete-index:%s:persistent-metadata" % rel,
                                             "rotated segment of (org %d, index %s) is no longer listed in segmeta.json after %s; its events %s were searchable "
                                             "before a restart and are gone after it" % (o, i, json.dumps(dels[-1] if dels else None), sorted(n for (_, _, n) in want - got))))
@@ -405,7 +424,8 @@ def deviating(h):
 
 def features(h):
     ops = [s["op"]["op"] for s in h["steps"]]
-    return ("delete" in ops, "rotate" in ops, any(o.startswith("alias") for o in ops))
+    coexist = any(v.get(i) and v.get(j) for st in h["steps"] for v in st["vis"].values() for i in v for j in v if j != i and j.startswith(i))
+    return ("delete" in ops, "rotate" in ops or "ingest_rotate" in ops, any(o.startswith("alias") for o in ops), coexist)
 
 
 def run(chk):
@@ -436,49 +456,60 @@ def run(chk):
         # ---- behaviours
         g1 = write_cfg(sc, "Gen_Tenancy_small_cur.cfg", "Gen_Tenancy_small.cfg", flags)
         small, r1 = vlib.tlc_generate("Gen_Tenancy", "Gen_Tenancy_small_cur.cfg", timeout=900, extra_files=[g1])
-        chk.add_tlc("Gen_Tenancy_small", r1, "all canonical histories of 4 operations, 2 orgs x {a, ab} x alias al")
+        chk.add_tlc("Gen_Tenancy_small", r1, "all canonical histories of 4 operations, 2 orgs x {a, ab, abc} x alias al, deletes over names and a*b")
         g2 = write_cfg(sc, "Gen_Tenancy_sim_cur.cfg", "Gen_Tenancy_sim.cfg", flags)
         sim, r2 = vlib.tlc_generate("Gen_Tenancy", "Gen_Tenancy_sim_cur.cfg", timeout=900, simulate="num=%d" % (250 if quick else 1500), depth=7,
                                     seed=chk.seed, extra_files=[g2])
-        chk.add_tlc("Gen_Tenancy_sim", r2, "simulated histories of 6 operations, 3 orgs x {a, ab, b} x alias al")
+        chk.add_tlc("Gen_Tenancy_sim", r2, "simulated histories of 6 operations, 3 orgs x {a, ab, abc, b} x alias al, deletes over names, a*b, *b")
+        g3 = write_cfg(sc, "Gen_Tenancy_segs_cur.cfg", "Gen_Tenancy_segs.cfg", flags)
+        segs, r3 = vlib.tlc_generate("Gen_Tenancy", "Gen_Tenancy_segs_cur.cfg", timeout=900, extra_files=[g3])
+        chk.add_tlc("Gen_Tenancy_segs", r3, "all canonical histories of 5 operations with ingest+rotate as one step (segment-rich), 2 orgs x {ab}")
     finally:
         vlib.rmtree(sc)
-    if not small or not sim:
+    if not small or not sim or not segs:
         raise vlib.Infra("no histories generated")
     sim = vlib.dedup(sim, key=lambda h: json.dumps([s["op"] for s in h["steps"]]))
     rnd = random.Random(chk.seed)
 
     def risk(h):
-        """how much other data is at stake when a delete runs: live events of the same index name in another organisation
-        or of a prefix-related index name, counted at each successful delete (rotated data counts double)"""
+        """what is at stake when a delete runs, maximised over the successful deletes of the history:
+        - other data that a wrongly keyed / wrongly matched delete would hit: live events of the same index name in another
+          organisation, of index names that extend or are extended by a deleted name, and - for a wildcard delete - of any other
+          index of the organisation (rotated data counts double);
+        - 3 points per additional rotated segment the deleted (organisation, index) owns (lists of several segments are where
+          removal loops go wrong);
+        - 1 point for a wildcard in the deleted expression."""
         best = 0
         rotated = False
         for k, st in enumerate(h["steps"]):
             op = st["op"]
-            if op["op"] == "rotate":
+            if is_rotate(op):
                 rotated = True
-            if op["op"] == "delete" and op["present"] and k > 0:
-                before = h["steps"][k - 1]["ev"]
-                r = 0
-                for o, by in before.items():
+            if is_del(op) and k > 0:
+                before = h["steps"][k - 1]
+                r = 1 if "*" in op["idx"] else 0
+                for o, by in before["ev"].items():
                     for i, ids in by.items():
-                        if not ids or (int(o), i) == (op["org"], op["idx"]):
+                        if not ids or is_del(op, int(o), i):
                             continue
-                        if i == op["idx"] or i.startswith(op["idx"]) or op["idx"].startswith(i):
+                        related = any(i == d or i.startswith(d) or d.startswith(i) for d in op["names"])
+                        if related or ("*" in op["idx"] and int(o) == op["org"]):
                             r += 2 if rotated else 1
+                for i in op["names"]:
+                    r += 3 * max(0, before["segs"][str(op["org"])].get(i, 0) - 1)
                 best = max(best, r)
         return best
 
     def pick(pool, n):
-        """stratified: 40% histories on which the transcription deviates from the abstract layer, 30% histories whose deletes
-        put most other data at stake (same name in another organisation, prefix-related names), the rest spread over the
-        feature classes (delete / rotate / alias)"""
+        """stratified: 40% histories on which the transcription deviates from the abstract layer (none on a fully patched tree:
+        their share goes to the next class), 35% histories whose deletes put most at stake (see risk), the rest spread over the
+        feature classes (delete / rotate / alias / an index and an index whose name extends it both hold searchable data)"""
         rnd.shuffle(pool)
         dev = [h for h in pool if deviating(h)]
         sel = dev[:(n * 4) // 10]
         chosen = set(id(h) for h in sel)
         risky = sorted((h for h in pool if id(h) not in chosen and risk(h) > 0), key=lambda h: -risk(h))
-        want_risky = (n * 3) // 10 + ((n * 4) // 10 - len(sel))
+        want_risky = (n * 35) // 100 + ((n * 4) // 10 - len(sel))
         # the riskiest third, sampled (not just the top: keep variety)
         top = risky[:max(want_risky * 3, 1)]
         rnd.shuffle(top)
@@ -498,8 +529,8 @@ def run(chk):
             i += 1
         return sel
 
-    n_small, n_sim = (120, 120) if quick else (1000, 1000)
-    sel = pick(small, n_small) + pick(sim, n_sim)
+    n_small, n_sim, n_segs = (70, 55, 55) if quick else (800, 700, 500)
+    sel = pick(small, n_small) + pick(sim, n_sim) + pick(segs, n_segs)
     retried = []
 
     def history_with_retry(h):
@@ -541,6 +572,7 @@ def run(chk):
             drift.append({"ops": ops, "what": r["drift"][:3]})
         if r["trace"]:
             traces += 1
+            chk.cov.setdefault("transcription_difference_sample", {"ops": ops, "what": r["trace"][:3]})
         if len(chk.cov["samples"]) < 3 and f[0] and len(ops) >= 4:
             chk.sample({"ops": ops, "violations": [v[0] for v in r["viol"]][:4], "observations": r["obs"][:3]})
     for key in sorted(found):
